@@ -486,10 +486,10 @@ Section Finish.
     process_objects dist_of c sm mode l = Done l' -> Forall obj_scalar l'.
   Proof.
     induction l as [|h r IH]; intros l' Hl H; cbn [process_objects] in H; [inversion H; constructor|].
-    inversion Hl; subst.
+    inversion Hl as [|? ? Hh Hr]; subst.
     destruct (process_object dist_of c sm mode h) as [h1|w|] eqn:Eh; cbn [obind] in H; try discriminate.
     destruct (process_objects dist_of c sm mode r) as [r1|w|] eqn:Er; cbn [obind] in H; try discriminate.
-    inversion H; subst. constructor; [exact (process_object_scalar _ _ _ _ _ H2 Eh)|exact (IH _ H3 eq_refl)].
+    inversion H; subst. constructor; [exact (process_object_scalar _ _ _ _ _ Hh Eh)|exact (IH _ Hr eq_refl)].
   Qed.
 
   Lemma finish_hit_objects_scalar c breaks sm mode objs objs' : Forall obj_scalar objs ->
